@@ -81,7 +81,8 @@ def ob_connect_request(report):
         ex = e2.executor('anemo', CONNECTION_MODELS + [(r'JoinSet::spawn$', m_spawn), (r'oneshot::Sender::send$', m_send)], max_depth=4)
         fn = find_method(ex.prog, 'ConnectionManager', 'handle_connect_request')
         addr, pid, tx = Sym('addr', 'Address'), Sym('wanted', 'Option<PeerId>'), Sym('reply_tx', 'oneshot::Sender<Result<PeerId>>')
-        res = ex.run(fn, [Ptr(('H', 'cm', 'ConnectionManager'), (), True), addr, pid, tx])
+        res = ex.run(fn, e2.bind_args(fn, dial.CM, [Ptr(('H', 'cm', 'ConnectionManager'), (), True)],
+                                      [(r'^Address$', addr), (r'^Option<PeerId>$', pid), (r'^(oneshot::)?Sender<', tx)]))
         n = 0
         for r in res:
             if r.tag != 'return':
@@ -114,7 +115,13 @@ def ob_handshake(report):
         ex = e2.executor('anemo', CONNECTION_MODELS, max_depth=1)
         fn = find_fn(ex.prog, r'^handshake::\{closure#0\}$')
         conn = Sym('conn', 'connection::Connection')
-        p, args = coroutine_start(ex, fn, [conn])
+        outer = find_fn(ex.prog, r'^handshake$')
+        by_ref = outer.decl.get(outer.args[0], '').lstrip().startswith('&')
+        if by_ref:
+            p, args = coroutine_start(ex, fn, [Ptr(('H', 'conn.cell', 'connection::Connection'), (), False, 'connection::Connection')])
+            p.mem[('H', 'conn.cell', 'connection::Connection')] = conn
+        else:
+            p, args = coroutine_start(ex, fn, [conn])
         res = ex.run(fn, args, p)
         IN, OUT = C04.directions(ex)
         od = origin_discr('conn')
@@ -125,7 +132,8 @@ def ob_handshake(report):
             ret = r.ret
             if not (isinstance(ret, Agg) and ret.variant == 'Ready' and isinstance(ret.fields[0], Agg) and ret.fields[0].variant == 'Ok'):
                 continue
-            if vname(ret.fields[0].fields[0]) != 'conn':
+            got = ret.fields[0].fields[0]
+            if not (by_ref and isinstance(got, Agg) and not got.fields) and vname(got) != 'conn':      # Result<()> when the connection is only borrowed
                 return viol(ob, [ex], 'handshake returns a different connection', 'hs-conn', path_summary(r), len(res))
             names = [(e.name if isinstance(e.name, str) else '') for e in r.events if e.kind in ('call', 'poll', 'enter')]
             seq = [n for n in names]
